@@ -209,8 +209,20 @@ def check(idx: Index, rep: Report, tier: str) -> str:
         r.ok(f.fq, f"{f.loc} has_one_use() tested in every iteration before the user is folded")
     else:
         r.fail(f.fq, Finding("C16.R4", f.fq, "single-use-not-rechecked", "the single-use test of the induction variable is not repeated inside the fold loop: after the first fold the uses of the folded op move to the induction variable, and a second add/mul is folded into the bounds while other users still expect the unscaled value", f.loc))
-    # the value folded into the bounds is tested to be loop-invariant (is_foldable) on the path that uses it
+    # a fold is committed to the loop: on every path, the bounds of the loop are written in the same iteration before the
+    # user is replaced by the induction variable, or on every path from that replacement to the end of the function
     opn4 = f.node.args.args[1].arg
+    bstores = {cfg.node_of(st) for st in walk_local(f.node) if isinstance(st, ast.Assign) and any(re.match(rf"{opn4}\.operands\[", unparse(t)) or re.fullmatch(rf"{opn4}\.(lb|ub|step)", unparse(t)) for t_ in st.targets for t in (t_.elts if isinstance(t_, ast.Tuple) else [t_]))}
+    heads = [cfg.node_of(w.test) for w in walk_local(f.node) if isinstance(w, ast.While)] + [cfg.node_of(w) for w in walk_local(f.node) if isinstance(w, ast.For)]
+    if bstores and heads:
+        for x in fn_:
+            before = all(cfg.path_avoiding(h_, x, lambda n: n.id in bstores, follow_exc=False) is None for h_ in heads if cfg.path_avoiding(h_, x, lambda n: False, follow_exc=False) is not None)
+            after = cfg.path_avoiding(x, cfg.exit, lambda n: n.id in bstores, follow_exc=False)
+            if before or after is None:
+                r.ok(f.fq + ":commit", f"{f.loc} the folded bounds are written to the loop on every path around the replacement of the user")
+            else:
+                r.fail(f.fq + ":commit", Finding("C16.R4", f.fq, "fold-not-committed", "a path replaces the user of the induction variable by the induction variable itself and then leaves the function without writing the folded bounds to the loop (" + " -> ".join(cfg.describe(after)[-3:]) + "): the body now sees `iv` where it computed `iv + c` / `iv * c`, with the old range", f.loc))
+    # the value folded into the bounds is tested to be loop-invariant (is_foldable) on the path that uses it
     builds = [c for c in calls_in(f.node) if call_attr(c) in ("AddiOp", "MuliOp") and len(c.args) == 2 and re.fullmatch(rf"{opn4}\.(lb|ub|step)", unparse(c.args[0]))]
     if not builds:
         raise AnalysisError(f"{f.fq}: construction of the new loop bounds not found")
